@@ -45,6 +45,17 @@ Proof.
   - intros H. exists a. split; [assumption|apply String.eqb_refl].
 Qed.
 
+Lemma NoDup_app_inv {A} (l1 l2 : list A) :
+  NoDup (l1 ++ l2) -> NoDup l1 /\ NoDup l2 /\ (forall x, In x l1 -> In x l2 -> False).
+Proof.
+  induction l1 as [|a l1 IH]; simpl; intros H.
+  - repeat split; [constructor|assumption|intros x []].
+  - inversion H as [|? ? Hn Hd]; subst. destruct (IH Hd) as [H1 [H2 H3]].
+    repeat split; auto.
+    + constructor; [|assumption]. intro Hc. apply Hn. apply in_or_app. now left.
+    + intros x [Hx|Hx] Hx2; [subst; apply Hn; apply in_or_app; now right|eauto].
+Qed.
+
 Lemma list_sum_app l1 l2 : list_sum (l1 ++ l2) = list_sum l1 + list_sum l2.
 Proof. induction l1; simpl; lia. Qed.
 
@@ -93,6 +104,13 @@ Section Generic.
       + eapply IH; [|exact H]. intros; apply Hst; now right.
   Qed.
 
+  Lemma run_sound : forall root f a n,
+      run f [root] [] a = Found n -> Reach root n /\ has_alias a n = true.
+  Proof.
+    intros root f a n H. eapply run_sound_gen; [|exact H].
+    intros s [Hs|[]]. subst. constructor.
+  Qed.
+
   (** ** Completeness: ValueError only if no reachable class has the alias *)
   Section Complete.
     Variable root : N.
@@ -126,7 +144,7 @@ Section Generic.
         intros n Hn. apply (inv_chk _ _ _ I n (Hall n Hn)).
       - destruct (negb (mem_id (nid p) P)) eqn:Ep.
         + (* first visit: push parent and children *)
-          apply (IH _ _ checked); [|exact H]. constructor.
+          refine (IH _ _ checked _ H). constructor.
           * destruct (inv_root _ _ _ I) as [Hc|Hs]; [now left|right].
             apply in_or_app. right. exact Hs.
           * intros c Hc Hm d Hd. simpl in Hm. apply orb_true_iff in Hm as [Hm|Hm].
@@ -147,7 +165,7 @@ Section Generic.
           apply negb_false_iff in Ep.
           assert (Hcov : forall n, covered checked (p :: rest) n -> covered (p :: checked) rest n).
           { intros n [Hn|[Hn|Hn]]; [left; now right|left; now left|now right]. }
-          apply (IH _ _ (p :: checked)); [|exact H]. constructor.
+          refine (IH _ _ (p :: checked) _ H). constructor.
           * apply Hcov. apply (inv_root _ _ _ I).
           * intros c Hc Hm d Hd. apply Hcov. eapply (inv_exp _ _ _ I); eauto.
           * intros c [Hc|Hc].
@@ -178,12 +196,18 @@ Section Generic.
     Definition unpushed (P : list Z) (l : list N) : nat :=
       list_sum (map (fun n => if mem_id (nid n) P then 0 else weight n) l).
 
+    Lemma unpushed_cons P n l :
+      unpushed P (n :: l) = (if mem_id (nid n) P then 0 else weight n) + unpushed P l.
+    Proof. reflexivity. Qed.
+
+    Lemma mem_id_cons x c P : mem_id x (c :: P) = Z.eqb x c || mem_id x P.
+    Proof. reflexivity. Qed.
+
     Lemma unpushed_mono : forall l P c, unpushed (c :: P) l <= unpushed P l.
     Proof.
-      induction l as [|n l IH]; intros P c; unfold unpushed in *; simpl; [lia|].
-      specialize (IH P c). destruct (Z.eqb (nid n) c); simpl.
-      - destruct (mem_id (nid n) P); lia.
-      - destruct (mem_id (nid n) P); lia.
+      induction l as [|n l IH]; intros P c; [unfold unpushed; simpl; lia|].
+      rewrite !unpushed_cons, mem_id_cons. specialize (IH P c).
+      destruct (Z.eqb (nid n) c); cbn [orb]; destruct (mem_id (nid n) P); lia.
     Qed.
 
     Lemma unpushed_push : forall l P s,
@@ -191,11 +215,12 @@ Section Generic.
         unpushed (nid s :: P) l + weight s <= unpushed P l.
     Proof.
       induction l as [|n l IH]; intros P s Hin Hm; [destruct Hin|].
+      rewrite !unpushed_cons, mem_id_cons.
       destruct Hin as [Hin|Hin].
       - subst n. pose proof (unpushed_mono l P (nid s)) as Hmono.
-        unfold unpushed in *. simpl. rewrite Z.eqb_refl, Hm. simpl. lia.
-      - specialize (IH P s Hin Hm). unfold unpushed in *. simpl.
-        destruct (Z.eqb (nid n) (nid s)); simpl; [|destruct (mem_id (nid n) P)]; lia.
+        rewrite Z.eqb_refl, Hm. cbn [orb]. lia.
+      - specialize (IH P s Hin Hm).
+        destruct (Z.eqb (nid n) (nid s)); cbn [orb]; destruct (mem_id (nid n) P); lia.
     Qed.
 
     Lemma run_terminates_gen : forall f st P a,
@@ -288,8 +313,7 @@ Proof.
   - simpl. exists P. split; [intros; now rewrite orb_false_r|reflexivity].
   - unfold forest_ids in Hnd, Hdis. rewrite forest_order_cons, map_app in Hnd, Hdis.
     fold (ids t) in Hnd, Hdis. fold (forest_ids ts) in Hnd, Hdis.
-    assert (Hnd1 : NoDup (ids t)) by (eapply NoDup_app_remove_r; exact Hnd).
-    assert (Hnd2 : NoDup (forest_ids ts)) by (eapply NoDup_app_remove_l; exact Hnd).
+    destruct (NoDup_app_inv _ _ Hnd) as [Hnd1 [Hnd2 Hnd3]].
     assert (Hdis1 : forall x, In x (ids t) -> mem_id x P = false)
       by (intros; apply Hdis; apply in_or_app; now left).
     specialize (Ht (ts ++ rest) P Hnd1 Hdis1).
@@ -301,8 +325,8 @@ Proof.
       assert (Hdis2 : forall x, In x (forest_ids ts) -> mem_id x P1 = false).
       { intros x Hx. rewrite HP1. apply orb_false_iff. split.
         - apply Hdis. apply in_or_app. now right.
-        - apply mem_id_false. intro Hc.
-          apply (proj1 (NoDup_app_disjoint _ _ _) Hnd x Hc Hx). }
+        - destruct (mem_id x (ids t)) eqn:Hc; [|reflexivity]. exfalso.
+          apply mem_id_true in Hc. exact (Hnd3 x Hc Hx). }
       specialize (IH rest P1 Hnd2 Hdis2).
       destruct (find (thas a) (forest_order ts)) as [n|].
       * intros f Hf. replace f with (2 * tsize t + (f - 2 * tsize t)) by lia.
@@ -315,4 +339,80 @@ Proof.
         -- intros f. replace (2 * (tsize t + forest_size ts) + f)
              with (2 * tsize t + (2 * forest_size ts + f)) by lia.
            simpl app. rewrite Hrun1. apply Hrun2.
+Qed.
+
+Lemma ids_node c al ch : ids (Node c al ch) = forest_ids (rev ch) ++ [c].
+Proof. unfold ids. rewrite visit_order_node, map_app. reflexivity. Qed.
+
+Lemma mem_id_app x l1 l2 : mem_id x (l1 ++ l2) = mem_id x l1 || mem_id x l2.
+Proof. unfold mem_id. apply existsb_app. Qed.
+
+Lemma tree_stmt_all a : forall t, tree_stmt a t.
+Proof.
+  induction t as [c al ch IHch] using ctree_ind'.
+  intros rest P Hnd Hdis. set (t := Node c al ch) in *.
+  assert (Hids : ids t = forest_ids (rev ch) ++ [c]) by apply ids_node.
+  rewrite Hids in Hnd, Hdis.
+  destruct (NoDup_app_inv _ _ Hnd) as [Hnd1 [_ Hnd3]].
+  assert (HcP : mem_id c P = false) by (apply Hdis; apply in_or_app; right; now left).
+  assert (Hdis' : forall x, In x (forest_ids (rev ch)) -> mem_id x (c :: P) = false).
+  { intros x Hx. simpl. apply orb_false_iff. split.
+    - apply Z.eqb_neq. intro E. subst x. apply (Hnd3 c Hx). now left.
+    - apply Hdis. apply in_or_app. now left. }
+  pose proof (forest_stmt a (rev ch) (Forall_rev IHch) (t :: rest) (c :: P) Hnd1 Hdis')
+    as HF.
+  assert (Hstep : forall f, trun (S f) (t :: rest) P a = trun f (rev ch ++ t :: rest) (c :: P) a).
+  { intros f. unfold trun, tree_run. simpl. unfold t at 1. simpl t_id.
+    change (mem_id c P) with (mem_id c P). rewrite HcP. reflexivity. }
+  assert (Hsz : tsize t = S (forest_size (rev ch))) by apply tsize_node.
+  unfold t at 1. rewrite visit_order_node. fold t. rewrite find_app.
+  destruct (find (thas a) (forest_order (rev ch))) as [n|].
+  - intros f Hf. destruct f as [|f]; [lia|]. rewrite Hstep. apply HF. lia.
+  - destruct HF as [P1 [HP1 Hrun1]].
+    assert (HcP1 : mem_id c P1 = true).
+    { rewrite HP1. simpl. now rewrite Z.eqb_refl. }
+    assert (Hchk : forall f, trun (S f) (t :: rest) P1 a =
+                             if thas a t then Found t else trun f rest P1 a).
+    { intros f. unfold trun, tree_run. simpl. unfold t at 1. simpl t_id.
+      rewrite HcP1. reflexivity. }
+    change (find (thas a) [t]) with (if thas a t then Some t else None).
+    destruct (thas a t) eqn:Ea.
+    + intros f Hf.
+      replace f with (S (2 * forest_size (rev ch) + S (f - 2 * tsize t))) by lia.
+      rewrite Hstep, Hrun1, Hchk. try rewrite Ea. reflexivity.
+    + exists P1. split.
+      * intros x. rewrite HP1, Hids, mem_id_app. simpl.
+        destruct (Z.eqb x c); destruct (mem_id x P); destruct (mem_id x (forest_ids (rev ch)));
+          reflexivity.
+      * intros f.
+        replace (2 * tsize t + f) with (S (2 * forest_size (rev ch) + S f)) by lia.
+        rewrite Hstep, Hrun1, Hchk. try rewrite Ea. reflexivity.
+Qed.
+
+(** The machine on a tree computes the specification, for every class tree whose
+    classes are distinct objects, with any fuel from [tree_fuel] upward. *)
+Theorem tree_run_spec : forall t a f,
+    NoDup (ids t) -> tree_fuel t <= f ->
+    trun f [t] [] a = match spec_from_alias t a with
+                      | Some n => Found n
+                      | None => NotFound
+                      end.
+Proof.
+  intros t a f Hnd Hf. unfold tree_fuel in Hf.
+  pose proof (tree_stmt_all a t [] [] Hnd (fun _ _ => eq_refl)) as H.
+  unfold spec_from_alias. destruct (find (thas a) (visit_order t)) as [n|].
+  - apply H. lia.
+  - destruct H as [P' [_ Hrun]].
+    replace f with (2 * tsize t + S (f - 2 * tsize t - 1)) by lia.
+    rewrite Hrun. reflexivity.
+Qed.
+
+Lemma tree_from_alias_spec_l : forall t a,
+    NoDup (ids t) ->
+    tree_from_alias t a = option_map t_id (spec_from_alias t a).
+Proof.
+  intros t a Hnd. unfold tree_from_alias.
+  change (tree_run (tree_fuel t) [t] [] a) with (trun (tree_fuel t) [t] [] a).
+  rewrite (tree_run_spec t a (tree_fuel t) Hnd (le_n _)).
+  destruct (spec_from_alias t a); reflexivity.
 Qed.
